@@ -25,12 +25,23 @@ let read_node () : node =
   match next () with
   | "F" -> NFixed
   | "P" -> NPrim (ty_of_string (next ()))
-  | "D" -> let c = next_int () in NDet (List.init c (fun _ -> nat_of_int (next_int ())))
+  | "D" -> (* D ne e1..e_ne nd d1..d_nd : the encoder's and the decoder's dependency walks *)
+           let c = next_int () in let es = List.init c (fun _ -> nat_of_int (next_int ())) in
+           let c' = next_int () in let ds = List.init c' (fun _ -> nat_of_int (next_int ())) in
+           NDet (es, ds)
   | "M" -> let ix = next_int () in let c = next_int () in
            NMux (nat_of_int ix, List.init c (fun _ -> nat_of_int (next_int ())))
   | s -> failwith ("node " ^ s)
 
 let read_dag () : node list = let n = next_int () in List.init n (fun _ -> read_node ())
+
+let natlist l = String.concat " " (string_of_int (List.length l) :: List.map (fun x -> string_of_int (int_of_nat x)) l)
+let string_of_node = function
+  | NFixed -> "F"
+  | NPrim t -> "P " ^ (match t with TInt -> "int" | TBool -> "bool" | TFloat -> "float" | TVec -> "vec" | TOri -> "ori"
+                                  | TStr -> "str" | TBytes -> "bytes" | TNone -> "none")
+  | NDet (es, ds) -> "D " ^ natlist es ^ " " ^ natlist ds
+  | NMux (ix, os) -> "M " ^ string_of_int (int_of_nat ix) ^ " " ^ natlist os
 
 let read_val () : val0 =
   match next () with
@@ -80,6 +91,18 @@ let handle (line:string) : string =
            let items = List.sort compare (List.map (fun (i, v) -> (int_of_nat i, string_of_val v)) pe) in
            "OK " ^ String.concat " ; " (List.map (fun (i, s) -> string_of_int i ^ " " ^ s) items) ^ " | " ^ hex_or_dash r
        | Err e -> "ERR " ^ err_name e)
+  | "VIEW" ->
+      (* VIEW n {node (- | C k p1..pk)} : the DAG the code walks (code_view) given every node's own
+         dependency list and its conditioned proxy's *)
+      let n = next_int () in
+      let cg = List.init n (fun _ ->
+        let own = read_node () in
+        let proxy = (match next () with
+          | "-" -> None
+          | "C" -> let k = next_int () in Some (List.init k (fun _ -> nat_of_int (next_int ())))
+          | s -> failwith ("proxy " ^ s)) in
+        { c_own = own; c_proxy = proxy }) in
+      String.concat " " (string_of_int n :: List.map (fun c -> string_of_node (code_view c)) cg)
   | "ROLES" ->
       (* byte layout of an encoding: written primitive nodes in order, with their lengths *)
       let g = read_dag () in
